@@ -721,6 +721,67 @@ pub mod packed {
     }
 }
 
+// ---- the helpers the way users reach them: as `#[serde(with = ..)]` / `deserialize_with` attributes
+pub mod attrs {
+    use palette::rgb::{PackedArgb, PackedRgba};
+    use palette::{Srgb, SrgbLuma, Srgba};
+    use serde::{Deserialize, Serialize};
+
+    /// One document that uses every helper module and function through serde attributes, with the types that
+    /// implement BOTH casts (`Luma<_, u8>` is an array of one and a `u8`) next to each other.
+    #[derive(Serialize, Deserialize, PartialEq, Debug, Clone)]
+    pub struct Document {
+        #[serde(with = "palette::serde::as_array")]
+        pub rgb_array: Srgb<f32>,
+        #[serde(with = "palette::serde::as_array")]
+        pub rgba_array: Srgba<u8>,
+        #[serde(with = "palette::serde::as_array")]
+        pub luma_array: SrgbLuma<u8>,
+        #[serde(with = "palette::serde::as_uint")]
+        pub luma_uint: SrgbLuma<u8>,
+        #[serde(with = "palette::serde::as_uint")]
+        pub luma16_uint: SrgbLuma<u16>,
+        #[serde(with = "palette::serde::as_uint")]
+        pub rgba_uint: PackedRgba,
+        #[serde(with = "palette::serde::as_uint")]
+        pub argb_uint: PackedArgb,
+        #[serde(serialize_with = "palette::serde::serialize_as_array", deserialize_with = "palette::serde::deserialize_as_array")]
+        pub split_array: Srgb<u8>,
+        #[serde(deserialize_with = "palette::serde::deserialize_with_optional_alpha")]
+        pub optional: Srgba<f32>,
+        pub plain: Srgba<f32>,
+    }
+
+    pub fn build(b: &[u8; 16]) -> Document {
+        let f = |x: u8| x as f32 / 256.0; // exact
+        Document {
+            rgb_array: Srgb::new(f(b[0]), f(b[1]), f(b[2])),
+            rgba_array: Srgba::new(b[3], b[4], b[5], b[6]),
+            luma_array: SrgbLuma::new(b[7]),
+            luma_uint: SrgbLuma::new(b[8]),
+            luma16_uint: SrgbLuma::new(b[9] as u16 * 257),
+            rgba_uint: Srgba::new(b[10], b[11], b[12], b[13]).into(),
+            argb_uint: Srgba::new(b[13], b[12], b[11], b[10]).into(),
+            split_array: Srgb::new(b[14], b[15], b[0]),
+            optional: Srgba::new(f(b[1]), f(b[3]), f(b[5]), f(b[7])),
+            plain: Srgba::new(f(b[2]), f(b[4]), f(b[6]), f(b[8])),
+        }
+    }
+
+    /// The JSON text the document must have (arrays of components, bare unsigned integers).
+    pub fn expected_json(b: &[u8; 16]) -> String {
+        let f = |x: u8| serde_json::to_string(&(x as f32 / 256.0)).unwrap_or_default();
+        let rgba = ((b[10] as u32) << 24) | ((b[11] as u32) << 16) | ((b[12] as u32) << 8) | b[13] as u32;
+        // Srgba::new(b13, b12, b11, b10) packed as ARGB: a = b10, r = b13, g = b12, b = b11
+        let argb = ((b[10] as u32) << 24) | ((b[13] as u32) << 16) | ((b[12] as u32) << 8) | b[11] as u32;
+        format!(
+            "{{\"rgb_array\":[{},{},{}],\"rgba_array\":[{},{},{},{}],\"luma_array\":[{}],\"luma_uint\":{},\"luma16_uint\":{},\"rgba_uint\":{},\"argb_uint\":{},\"split_array\":[{},{},{}],\"optional\":{{\"red\":{},\"green\":{},\"blue\":{},\"alpha\":{}}},\"plain\":{{\"red\":{},\"green\":{},\"blue\":{},\"alpha\":{}}}}}",
+            f(b[0]), f(b[1]), f(b[2]), b[3], b[4], b[5], b[6], b[7], b[8], b[9] as u32 * 257, rgba, argb, b[14], b[15], b[0],
+            f(b[1]), f(b[3]), f(b[5]), f(b[7]), f(b[2]), f(b[4]), f(b[6]), f(b[8])
+        )
+    }
+}
+
 pub fn all_cases() -> Vec<&'static CaseDesc> {
     let mut v: Vec<&'static CaseDesc> = Vec::new();
     macro_rules! add {
